@@ -191,15 +191,141 @@ def replay_wh(pid, path):
     return 0
 
 
+# --------------------------------------------------------------------- schedule family
+
+SCHED_RULE = ("a fixed family of %d schedule types (hand-written corner schedules: F4 witness shapes, dynamic-only "
+              "independence through filters, three stages, entry views, resources only, readers only, ParSystems; plus "
+              "seeded random tasks over 4 components and 2 resources with 0-3 views of the 4 kinds + Identifier, filters "
+              "from Has/Not/And/Or, entry views, resource views) x worlds (the world without archetypes, fixed and random "
+              "sets of 1-4 archetypes incl. empty ones) x execution orders through hook H2 (first-closure-first, "
+              "second-first, seeded bit-string orders, real rayon on pools of 1 and 4 [thorough: 2,16]). Non-trivial: "
+              "the run has at least two tasks under a common join or at least two stages; distinct = distinct "
+              "(schedule, world, order) triples among those.")
+
+
+def sched_check(pid, tier, seed, t0):
+    import sched
+    eng = sched.engine(seed, tier)
+    proof = check_props(pid)
+    fam, cases, obs = eng["fam"], eng["cases"], eng["obs"]
+    viol = []
+    diverged = []
+    nontrivial = set()
+    compared = 0
+    for i, (c, ob) in enumerate(zip(cases, obs)):
+        for (p, msg) in sched.oracle(c, ob, fam[c["k"]]):
+            if p == pid or p == "*":
+                viol.append((i, msg))
+                break
+        if ob is None or "error" in ob:
+            continue
+        seq, _ = sched.tree_of_events(ob["events"])
+        if sched.par_pairs(seq) or len(seq) > 1:
+            nontrivial.add((c["k"], c["spec"], c["mode"], c["order"], c["pool"]))
+        if eng["model"] is not None:
+            q = (c["k"], tuple(sorted(ob["shapes"])))
+            m = eng["model"].get(q)
+            compared += 1
+            if m is None:
+                diverged.append((i, "model rejects the schedule (run_schedule = None)"))
+            elif m[1] != seq:
+                diverged.append((i, "fork/join term differs: implementation %s, model %s (stages %s)"
+                                 % (sched.show(seq), sched.show(m[1]), m[0])))
+    rc = 0
+    infra = []
+    if eng["build_err"] or eng["missing"]:
+        infra.append("schedule harness did not build: missing %s\n%s" % (eng["missing"], (eng["build_err"] or "")[-1500:]))
+    if viol:
+        i, msg = viol[0]
+        c = cases[i]
+        path = write_replay(pid, seed, {"property": pid, "kind": "failing-schedule-run", "message": msg,
+                                        "schedule_index": c["k"], "schedule": fam[c["k"]], "world": c["spec"],
+                                        "mode": c["mode"], "order": c["order"], "pool": c["pool"],
+                                        "observation": {k: v for k, v in (obs[i] or {}).items() if k != "access"},
+                                        "how_to_replay": "./check %s --replay replays/%s-%s.json" % (pid, pid, seed)})
+        print("VIOLATION property=%s replay=%s" % (pid, path))
+        print("  " + msg)
+        rc = 1
+    elif not proof["ok"] or diverged or eng["model_err"] or infra:
+        what = []
+        if not proof["ok"]:
+            what.append({"theorem_or_file": proof["failed_theorem"], "log": proof["log"][-1500:]})
+        if eng["model_err"]:
+            what.append({"model": "the Gallina model could not be evaluated on the regenerated tables", "log": eng["model_err"][-1500:]})
+        if diverged:
+            i, msg = diverged[0]
+            c = cases[i]
+            what.append({"correspondence": "fork/join term of the run vs run_schedule of the model", "message": msg,
+                         "schedule_index": c["k"], "schedule": fam[c["k"]], "world": c["spec"], "mode": c["mode"],
+                         "order": c["order"], "n_diverged": len(diverged)})
+        if infra:
+            what.append({"harness": infra[0]})
+        if infra and proof["ok"] and not diverged and not eng["model_err"]:
+            raise Infra(infra[0])
+        path = write_replay(pid, seed, {"property": pid, "kind": "no-failing-input-found", "no_longer_checks": what,
+                                        "translator": eng["translator"]})
+        print("VIOLATION property=%s replay=%s no-failing-input-found" % (pid, path))
+        rc = 1
+    samples = []
+    for i in range(0, len(cases), max(1, len(cases) // 3)):
+        c, ob = cases[i], obs[i]
+        if ob and "error" not in ob:
+            samples.append({"schedule": fam[c["k"]], "world": c["spec"], "mode": c["mode"], "order": c["order"],
+                            "pool": c["pool"], "fork_join_term": sched.show(sched.tree_of_events(ob["events"])[0])})
+    cov = {
+        "obligations": proof["obligations"], "discharged": proof["discharged"],
+        "checker_cmd": "tools/translate.py -> coq/Gen/Tables.v; make -C coq Props/%s.vo && coqc -Q coq Brood coq/Props/%s.v (Print Assumptions parsed)" % (pid, pid),
+        "trusted_base": TRUSTED_BASE, "theorems": proof["theorems"], "print_assumptions_closed": proof.get("closed", 0),
+        "axioms": proof["axioms"], "translator": eng["translator"],
+        "evaluations": len(cases), "distinct_nontrivial": len(nontrivial), "rule": SCHED_RULE % len(fam),
+        "samples": samples[:3], "traces_validated_against_impl": compared - len(diverged),
+        "model_queries": len(eng["queries"]), "schedules": len(fam),
+        "modes": dict(Counter("mode%d/pool%d" % (c["mode"], c["pool"]) for c in cases)),
+        "engine_cached": eng["cached"],
+        "explanation": "theorems over the Gallina scheduling model (coq/Props/%s.v; tables regenerated from the Rust source) + "
+                       "fork/join term of every real run (hook H2) compared with the model + spec-side oracles (sequential "
+                       "reference, recorded reachable addresses of join-parallel tasks, greedy grouping) on the implementation" % pid,
+    }
+    write_evidence(pid, tier, seed, "proof", cov,
+                   ["tasks are atomic in the model: instruction-level interleavings inside overlapping tasks are not exhibited (DRF => SC assumed once C08 holds)",
+                    "rayon::join contract: both closures run exactly once and join returns after both",
+                    "user systems confined to what their query result hands them (C14)"],
+                   time.time() - t0, 1 if rc else 0)
+    return rc
+
+
+def replay_sched(pid, path):
+    import sched
+    r = json.load(open(path))
+    if "schedule_index" not in r:
+        print("replay file names no run: %s" % json.dumps(r.get("no_longer_checks"))[:2000])
+        return 1
+    fam, err, missing = sched.build()
+    c = {"k": r["schedule_index"], "mode": r["mode"], "order": r["order"], "pool": r["pool"], "spec": r["world"]}
+    ob = sched.run_impl([c])[0]
+    bad = [(p, m) for (p, m) in sched.oracle(c, ob, fam[c["k"]]) if p in (pid, "*")]
+    print("schedule %d on world '%s' mode %d order %d pool %d" % (c["k"], c["spec"], c["mode"], c["order"], c["pool"]))
+    if bad:
+        print("VIOLATION property=%s replay=%s" % (pid, path))
+        print("  " + bad[0][1])
+        return 1
+    print("replay passes")
+    return 0
+
+
 # --------------------------------------------------------------------- dispatch
 
 def run_check(pid, tier, seed, t0):
     if pid in WH:
         return wh_check(pid, tier, seed, t0)
+    if pid in ("C07", "C08", "C12"):
+        return sched_check(pid, tier, seed, t0)
     raise Infra("no check registered for %s" % pid)
 
 
 def replay(pid, path):
     if pid in WH:
         return replay_wh(pid, path)
+    if pid in ("C07", "C08", "C12"):
+        return replay_sched(pid, path)
     raise Infra("no replay for %s" % pid)
